@@ -162,6 +162,11 @@ def run(ctx) -> Result:
         rng = Rng(seed, f"c05/listen/{i}")
         o = vtime.run(lambda loop, r=rng: listening(r), budget=3_000_000)
         check_listening(o, model, res, f"listen-{seed}-{i}")
+    # Redis broker: sessions on the real RedisMessageBroker/_RedisConsumer (in-process fake server) vs the Lean model
+    # Redis.R, and this property's clauses on what the implementation did
+    import redisrun
+    res.merge(redisrun.part(ctx, "C05", ['mixed', 'ttl', 'mixed'], crash=0, race=0))
+    res.assumptions = list(getattr(res, "assumptions", []) or []) + redisrun.ASSUMPTIONS
     return res
 
 
